@@ -63,6 +63,12 @@ void judge(pbt::Ctx& ctx, const consgen::Model& cm, consgen::BuiltCons& m, const
         }
     }
     for (int i = 0; i < nc; ++i) { std::string why; if (!cm.cons[i].disabled && consgen::degenerateAt(cm.cons[i], m, s, why)) { ctx.label(std::string("skipped-regime:") + why); return; } }
+    // distance-type equations (Rod, sphere centres, squared-distance Custom) behave like 1/r: the 5-point stencil (h=1e-3) has a relative
+    // truncation error ~(h*v/r)^4, v = relative speed of the two end points; keep it below 1e-7 (r >= 0.06*v)
+    for (int i = 0; i < nc; ++i) { const consgen::ConsSpec& c = cm.cons[i]; if (c.disabled) continue;
+        if (c.type == consgen::Rod || c.type == consgen::SphereOnSphereContact || (c.type == consgen::Custom && c.flavour == 1)) {
+            Real r = (m.mb[c.b2].findStationLocationInGround(s, c.p2) - m.mb[c.b1].findStationLocationInGround(s, c.p1)).norm(), v = (m.mb[c.b2].findStationVelocityInGround(s, c.p2) - m.mb[c.b1].findStationVelocityInGround(s, c.p1)).norm();
+            if (r < 0.06 * v) { ctx.label("skipped-regime:end-points-too-close-for-the-difference-stencil"); return; } } }
     ctx.label(std::string("regime:") + regimeName(regime));
     for (int i = 0; i < nc; ++i) ctx.label(std::string("judged:") + consgen::consName(cm.cons[i].type) + ":" + regimeName(regime));
 
@@ -242,12 +248,14 @@ void runModel(pbt::Ctx& ctx, const consgen::Model& cm, double t0, double udotMag
     if (ctx.failed || regimes < 2) return;
     State s1 = s;
     try { m.sys.projectQ(s1, 1e-10); } catch (const std::exception&) { ctx.label("R1:assembly-failed"); return; }
-    if (!consgen::inDomain(cm.spec, m, s1)) { ctx.label("R1:assembled-outside-domain"); return; }
+    if (!consgen::inDomain(cm.spec, m, s1)) { ctx.label("R1:assembled-outside-domain"); return; }     // (also catches non-finite q)
     judge(ctx, cm, m, s1, 1, seed, udotMag, applyKnown);
     if (ctx.failed || regimes < 3) return;
     State s0 = s1;
     try { m.sys.projectU(s0, 1e-10); } catch (const std::exception&) { ctx.label("R0:velocity-projection-failed"); return; }
     // nearly dependent velocity constraints can only be met with enormous speeds; the difference stencils (h=1e-3) need |u|*h << 1
+    // (a diverging Newton iteration can even come back "successful" with NaN speeds: every comparison with NaN is false -- C09's subject)
+    for (int i = 0; i < s0.getNU(); ++i) if (!std::isfinite(s0.getU()[i])) { ctx.label("R0:projection-returned-nonfinite-speeds"); return; }
     if (!(maxAbsV(s0.getU()) <= 20)) { ctx.label("R0:projected-speeds-too-large"); return; }
     judge(ctx, cm, m, s0, 0, seed, udotMag, applyKnown);
 }
@@ -297,7 +305,7 @@ void directedBias(pbt::Ctx& ctx) {         // ConstantCoordinate on a Ball mobil
 
 pbt::Config config() {
     pbt::Config c; c.prop = "C07"; c.K = consgen::K; c.minUnits = 2;
-    c.quick = {1000, 6000, 20, 30}; c.thorough = {8000, 60000, 24, 240};
+    c.quick = {1000, 6000, 20, 30}; c.thorough = {8000, 25000, 24, 240};
     c.rule = "rapidcheck tape -> body units (mbgen: 1..6 bodies, 18 mobilizer types, forward/reversed, frame kinds, quaternion/Euler, non-singular q, u in [-2,2] or 0) and constraint units (consgen: 1..4 constraints of the 19 built-in types on two different bodies incl. Ground / ancestor-descendant pairs, or on random coordinates/speeds; random stations, axes, frames, parameters); time != 0, udot log-uniform magnitude, tape-seeded multipliers; regimes R2 (as generated), R1 (after projectQ 1e-10), R0 (after projectU 1e-10) chosen by a tape word. Non-trivial: some constraint couples two different non-Ground bodies and u != 0; distinct by tape hash.";
     c.assumptions = {"5-point central differences with h=1e-3 along q(t)=q+t*qdot+t^2/2*qdotdot, u(t)=u+t*udot, time advanced too; tolerance 1e-6*(1+|value|)*(1+|u|)^2*(1+|udot|) (observed <= 1e-9 relative)",
                      "algebraic identities between library routes: 1e-10 x (1+|G|+|bias|+|aerr|) x (nu+4); documented-formula references use reported body velocities and calcBodyAccelerationFromUDot (decided by C03/C04)",
